@@ -14,14 +14,15 @@ import (
 
 // H executes op lines against the real ecs package and prints the canonical trace.
 type H struct {
-	w       *ecs.World
-	u       ecs.Unsafe
-	out     *bufio.Writer
-	lineNo  int
-	lastOK  bool
-	lastRes string
-	snap    bool
-	maxComp int
+	w        *ecs.World
+	u        ecs.Unsafe
+	out      *bufio.Writer
+	lineNo   int
+	lastOK   bool
+	lastRes  string
+	typedBad string
+	snap     bool
+	maxComp  int
 
 	labels     map[int]ecs.Entity
 	oldLabels  map[int]ecs.Entity
@@ -540,6 +541,10 @@ func (h *H) emit(res string) {
 func (h *H) result(class string, okStr string) {
 	h.lastOK = class == ""
 	h.lastRes = okStr
+	if h.typedBad != "" {
+		okStr += h.typedBad
+		h.typedBad = ""
+	}
 	if class != "" {
 		h.panicCount[class]++
 		h.emit("panic " + class)
